@@ -45,7 +45,14 @@ fn device(lead: u32) -> Device<ARadio, ATimer, TapeRng, 64, 1> {
     let mut mac = Mac::new(region::Configuration::new(Region::EU868), 14, 0);
     mac.join_abp(crate::NwkSKey::from([1; 16]), crate::AppSKey::from([2; 16]), crate::DevAddr::from_value(5));
     mac.configuration.rx1_delay = 1000 * (1 + tape::below(15) as u32);
-    Device { radio: ARadio { lead }, rng: TapeRng { draws: 0, free: 0, accept: 0 }, timer: ATimer, mac, radio_buffer: RadioBuffer::new(), downlink: Vec::new() }
+    // any session history (counters in particular) and any state of the application's downlink queue: the
+    // application need not have taken an earlier downlink when the next uplink is sent
+    let mut s = crate::mac::verif_mac::any_joined_session();
+    s.devaddr = crate::DevAddr::from_value(5);
+    mac.set_session(s);
+    let mut downlink: Vec<Downlink, 1> = Vec::new();
+    if tape::boolean() { let _ = downlink.push(Downlink { data: Vec::new(), fport: tape::u8() }); }
+    Device { radio: ARadio { lead }, rng: TapeRng { draws: 0, free: 0, accept: 0 }, timer: ATimer, mac, radio_buffer: RadioBuffer::new(), downlink }
 }
 
 /// KF-C06-1 (open finding): a radio error after the uplink was handed to the radio skips the step that advances FCntUp
